@@ -80,7 +80,16 @@ def sweeps(tier):
         cases.append({'objects': [[0, 's', 'A' * ln], [1, 's', 'B' * 5]], 'read_code': 1, 'start': 0})
         cases.append({'objects': [[0, 's', 'V'], [0x80, 'b', (b'\x01' * ln).hex()], [0x90, 's', 'x' * 7]], 'read_code': 3, 'start': 0})
         cases.append({'objects': [[1, 's', 'A' * ln]], 'read_code': 4, 'start': 1})
-    return [('single-object-lengths', cases, tier == 'thorough')]
+    out = [('single-object-lengths', cases, tier == 'thorough')]
+    # identities with every private object populated (135 objects, chains of many pages)
+    many = []
+    for ln in (1, 2, 7, 30, 100):
+        objs = [[i, 's', chr(0x41 + i) * 3] for i in range(7)] + [[i, 'b', bytes([(i + j) & 0xFF for j in range(ln)]).hex()] for i in range(0x80, 0x100)]
+        for code, start in ((3, 0), (3, 0x80), (3, 0xFF), (2, 0), (1, 0), (4, 0xC8), (3, 0xC8)):
+            many.append({'objects': objs, 'read_code': code, 'start': start})
+            many.append({'objects': objs[::-1], 'read_code': code, 'start': start, 'install': 'ctor+update'})
+    out.append(('every-object-id-populated', many, False))
+    return out
 
 
 def _value(o):
